@@ -442,7 +442,7 @@ func (mpt *MerklePatriciaTrie) delete(key Key, prefix, path Path) (Node, Key, er
 			// the leaf stores a longer path, the given path has no value
 			return nil, nil, ErrValueNotPresent
 		}
-		return mpt.deleteAfterPathTraversal(node)
+		return mpt.deleteAfterPathTraversal(node, prefix)
 	}
 	return mpt.deleteAtNode(key, node, prefix, path)
 }
@@ -633,51 +633,7 @@ func (mpt *MerklePatriciaTrie) deleteAtNode(key Key, node Node, prefix, path Pat
 					tempNode := nodeImpl.Clone().(*FullNode)
 					// clear the child being deleted
 					tempNode.PutChild(path[0], nil)
-					var otherChildKey []byte
-					var oidx byte
-					for idx, pe := range PathElements {
-						child := tempNode.GetChild(pe)
-						if child != nil {
-							oidx = byte(idx)
-							otherChildKey = child
-							break
-						}
-					}
-					ochild, err := mpt.getNode(otherChildKey)
-					if err != nil {
-						return nil, nil, err
-					}
-					npath := []byte{nodeImpl.indexToByte(oidx)}
-					var nnode Node
-					switch onodeImpl := ochild.(type) {
-					case *FullNode:
-						nnode = NewExtensionNode(npath, otherChildKey)
-					case *LeafNode:
-						if onodeImpl.Path != nil {
-							npath = append(npath, onodeImpl.Path...)
-						}
-						lnode := ochild.Clone().(*LeafNode)
-						lnode.SetOrigin(mpt.Version)
-						lnode.Path = npath
-						lnode.Prefix = concat(prefix)
-						nnode = lnode
-						if err := mpt.deleteNode(ochild); err != nil {
-							return nil, nil, err
-						}
-					case *ExtensionNode:
-						if onodeImpl.Path != nil {
-							npath = append(npath, onodeImpl.Path...)
-						}
-						enode := ochild.Clone().(*ExtensionNode)
-						enode.Path = npath
-						nnode = enode
-						if err := mpt.deleteNode(ochild); err != nil {
-							return nil, nil, err
-						}
-					default:
-						panic(fmt.Sprintf("unknown node type: %T %v %T", ochild, ochild, mpt.db))
-					}
-					return mpt.insertNode(node, nnode)
+					return mpt.liftOnlyChild(node, tempNode, prefix)
 				}
 			}
 		}
@@ -686,7 +642,7 @@ func (mpt *MerklePatriciaTrie) deleteAtNode(key Key, node Node, prefix, path Pat
 		return mpt.insertNode(node, nnode)
 	case *LeafNode:
 		if bytes.Equal(path, nodeImpl.Path) {
-			return mpt.deleteAfterPathTraversal(node)
+			return mpt.deleteAfterPathTraversal(node, prefix)
 		}
 
 		return nil, nil, ErrValueNotPresent // There is nothing to delete
@@ -734,6 +690,56 @@ func (mpt *MerklePatriciaTrie) deleteAtNode(key Key, node Node, prefix, path Pat
 	}
 }
 
+// liftOnlyChild replaces node, a full node that is left without a value and with the
+// single child recorded in tempNode, by that child lifted up one level
+func (mpt *MerklePatriciaTrie) liftOnlyChild(node Node, tempNode *FullNode, prefix Path) (Node, Key, error) {
+	var otherChildKey []byte
+	var oidx byte
+	for idx, pe := range PathElements {
+		child := tempNode.GetChild(pe)
+		if child != nil {
+			oidx = byte(idx)
+			otherChildKey = child
+			break
+		}
+	}
+	ochild, err := mpt.getNode(otherChildKey)
+	if err != nil {
+		return nil, nil, err
+	}
+	npath := []byte{tempNode.indexToByte(oidx)}
+	var nnode Node
+	switch onodeImpl := ochild.(type) {
+	case *FullNode:
+		nnode = NewExtensionNode(npath, otherChildKey)
+	case *LeafNode:
+		if onodeImpl.Path != nil {
+			npath = append(npath, onodeImpl.Path...)
+		}
+		lnode := ochild.Clone().(*LeafNode)
+		lnode.SetOrigin(mpt.Version)
+		lnode.Path = npath
+		lnode.Prefix = concat(prefix)
+		nnode = lnode
+		if err := mpt.deleteNode(ochild); err != nil {
+			return nil, nil, err
+		}
+	case *ExtensionNode:
+		if onodeImpl.Path != nil {
+			npath = append(npath, onodeImpl.Path...)
+		}
+		enode := ochild.Clone().(*ExtensionNode)
+		enode.Path = npath
+		nnode = enode
+		if err := mpt.deleteNode(ochild); err != nil {
+			return nil, nil, err
+		}
+	default:
+		panic(fmt.Sprintf("unknown node type: %T %v %T", ochild, ochild, mpt.db))
+	}
+	return mpt.insertNode(node, nnode)
+}
+
 func (mpt *MerklePatriciaTrie) insertAfterPathTraversal(value MPTSerializable, node Node) (Node, Key, error) {
 	switch nodeImpl := node.(type) {
 	case *FullNode:
@@ -774,7 +780,7 @@ func (mpt *MerklePatriciaTrie) insertAfterPathTraversal(value MPTSerializable, n
 	}
 }
 
-func (mpt *MerklePatriciaTrie) deleteAfterPathTraversal(node Node) (Node, Key, error) {
+func (mpt *MerklePatriciaTrie) deleteAfterPathTraversal(node Node, prefix Path) (Node, Key, error) {
 	switch nodeImpl := node.(type) {
 	case *FullNode:
 		if !nodeImpl.HasValue() {
@@ -786,6 +792,18 @@ func (mpt *MerklePatriciaTrie) deleteAfterPathTraversal(node Node) (Node, Key, e
 		// if nodeImpl.HasValue() {
 		// 	mpt.ChangeCollector.DeleteChange(nodeImpl.Value)
 		// }
+		switch nodeImpl.GetNumChildren() {
+		case 0:
+			// nothing is left of this node
+			if err := mpt.deleteNode(node); err != nil {
+				return nil, nil, err
+			}
+			return nil, nil, nil
+		case 1:
+			// a full node with a single child and no value should lift up the child,
+			// as deleting a child does, so that the shape depends on the content only
+			return mpt.liftOnlyChild(node, nnode, prefix)
+		}
 		return mpt.insertNode(node, nnode)
 	case *LeafNode:
 		// if nodeImpl.HasValue() {
